@@ -90,14 +90,22 @@ def check_c07(seed, tier):
             locations = ["user"] if producer == "option" else ["adjacent", "both"]
             for location in locations:
                 wipe_user_cache()
-                if producer == "option":
-                    _open(path, use_cache=False, create_cache=True, records_per_chunk=rw)
-                else:
-                    local_dir = path[len("file://"):] if path.startswith("file://") else path
-                    for im in prod.images:
-                        run_cli(os.path.join(local_dir, im.name), rw)
-                    if location == "both":
-                        _open(path, use_cache=False, create_cache=True, records_per_chunk=rng.choice([1, 5]))
+                try:
+                    if producer == "option":
+                        _open(path, use_cache=False, create_cache=True, records_per_chunk=rw)
+                    else:
+                        local_dir = path[len("file://"):] if path.startswith("file://") else path
+                        for im in prod.images:
+                            run_cli(os.path.join(local_dir, im.name), rw)
+                        if location == "both":
+                            _open(path, use_cache=False, create_cache=True, records_per_chunk=rng.choice([1, 5]))
+                except Exception as e:  # noqa: BLE001
+                    # producing the cache for a product that opens without one is part of the property's premise
+                    evals += 1
+                    viol.append({"case": {"cfg": cfg, "producer": producer, "fs": fs, "location": location, "rpc_write": rw},
+                                 "what": f"producing the index cache ({producer}) failed although the product opens without a cache: {type(e).__name__}: {e}"[:300],
+                                 "key": common.failure_site(e)})
+                    continue
                 evals += 1
                 distinct.add((level, producer, fs, location, rw, rr))
                 case = {"cfg": cfg, "producer": producer, "fs": fs, "location": location, "rpc_write": rw, "rpc_read": rr}
@@ -172,7 +180,7 @@ def check_c07(seed, tier):
     # images of the same name: a cache made for one must never serve the other
     import tempfile
     import unicodedata
-    for trial in range(1 if tier == "quick" else 6):
+    for trial in range(0 if common.FS_ASCII else (1 if tier == "quick" else 6)):
         level = rng.choice(["1.1", "1.5"])
         cfg_a = {"seed": rng.randrange(10**9), "level": level, "images": [("HH", None)], "n_lines": rng.randint(2, 4), "n_pixels": 2}
         cfg_b = dict(cfg_a, seed=rng.randrange(10**9), n_lines=cfg_a["n_lines"] + 1)
